@@ -62,6 +62,10 @@ func runC03(c *Ctx) {
 	for _, m := range findMultiListeners(c, "HANDOFF") {
 		ruleCancelPump(c, m, "HANDOFF")
 	}
+	// "a configured key": the list a port's handler searches is built from the keys configured for that port
+	if ra := findReload(c, "BIND"); ra != nil {
+		ruleBind(c, ra)
+	}
 }
 
 func runC04(c *Ctx) {
@@ -79,6 +83,9 @@ func runC04(c *Ctx) {
 	ruleSoleDeleter(c)
 	// "an allowed destination": what the default validator allows is decided by the private-network table
 	ruleTable(c)
+	// "one ... socket per client address": teardown ends an association now — a deadline helper that refuses to move the
+	// deadline earlier keeps the old socket relaying while the client's next datagram creates a second one
+	ruleMonotone(c)
 }
 
 func runC05(c *Ctx) {
